@@ -137,7 +137,7 @@ def _fd(f, x, h=1e-5):
               'prysm.x.raytracing.surfaces.Q2d_and_der'])
 def bounded_der(which):
     """BOUNDED (not a proof): each *_der / slope routine against a 6th-order central difference of its value routine on
-    seeded orders (incl. n = 0, 1), parameters, coefficient vectors (dense, sparse, length 1..8) and interior points."""
+    seeded orders (incl. n = 0, 1), parameters, coefficient vectors (dense, sparse, length 1..8) and interior points, plus the centre r = 0 for the Zernike derivatives."""
     import numpy as np
     rng = np.random.default_rng(Int('seed', 0, 10 ** 6))
     P = 'prysm.polynomials.'
@@ -165,6 +165,7 @@ def bounded_der(which):
             ok &= bool(np.allclose(get(P + 'legendre.legendre_der')(n, x), _fd(f, x), **tol))
     elif which == 'zernike_nm_der':
         r = rng.uniform(0.1, 0.9, 6)
+        r[0] = 0.0            # the centre sample of every grid: the radial polynomial is a polynomial, its slope exists there
         t = rng.uniform(-3, 3, 6)
         for n in range(0, 7):
             for m in range(-n, n + 1, 2):
@@ -215,10 +216,10 @@ def bounded_der(which):
     elif which == 'compute_z_zprime_Q2d':
         u = rng.uniform(0.1, 0.9, 6)
         t = rng.uniform(-3, 3, 6)
-        cm0 = list(rng.standard_normal(int(rng.integers(1, 4))))
-        M = int(rng.integers(0, 3))
-        ams = [list(rng.standard_normal(int(rng.integers(1, 4)))) for _ in range(M)]
-        bms = [list(rng.standard_normal(int(rng.integers(1, 4)))) for _ in range(M)]
+        cm0 = list(rng.standard_normal(int(rng.integers(1, 8))))
+        M = int(rng.integers(0, 4))
+        ams = [list(rng.standard_normal(int(rng.integers(1, 8)))) for _ in range(M)]         # unequal lengths 1..7 per family
+        bms = [list(rng.standard_normal(int(rng.integers(1, 8)))) for _ in range(M)]
         f = get(P + 'qpoly.compute_z_zprime_Q2d')
         z, zr, zt = f(cm0, ams, bms, u, t)
         ok &= bool(np.allclose(zr, _fd(lambda uu: f(cm0, ams, bms, uu, t)[0], u), **tol))
